@@ -165,7 +165,30 @@ def structural_variants(p):
     return out
 
 
+def has_data_dependent_loop(p):
+    """True when the callable traces to a while primitive (lax.while_loop, gcd/lcm, dynamic fori_loop): termination then
+    depends on the values, and neither an eager JAX loop nor an ONNX Runtime Loop can be interrupted from Python."""
+    got = getattr(p, "_ddl", None)
+    if got is not None:
+        return got
+    try:
+        import jax
+
+        specs = [jax.ShapeDtypeStruct(tuple(3 if isinstance(d, str) else d for d in sh), dt) for sh, dt in zip(p.shapes, p.dtypes)]
+        jp = str(jax.make_jaxpr(lambda *a: p.fn(*a, **p.params))(*specs))
+        got = " while[" in jp or "while_loop" in jp
+    except Exception:
+        got = "while" in str(p.case.get("id", "")).lower()
+    p._ddl = got
+    return got
+
+
 def feeds(p, rng, mode, sym=3):
+    if has_data_dependent_loop(p):
+        # only the authors' exact values (or, without any, the benign pool) are known to terminate
+        if p.base is not None:
+            return [b.copy() for b in p.base]
+        mode = 3
     if p.base is not None:
         sc = SCALES[mode % len(SCALES)]
         return [(b * np.asarray(sc, b.dtype) if b.dtype.kind == "f" else b) for b in p.base]
